@@ -41,7 +41,7 @@ def run_disasm(rep, prop, seed, n, mask_panic_only=False):
                 if a != b:
                     culprit = names.get(str(a["op"]), str(a["op"])) + ":" + ",".join(o["k"] for o in a["ops"])[:60]
                     break
-            if not culprit and len(alli) + (4 if m["header"] else 0) != len(e["lines"]):
+            if not culprit and len(alli) + e.get("nh", 0) != len(e["lines"]):
                 culprit = "linecount"
         else:
             culprit = "panic:" + e["panic"][1][:50]
